@@ -681,7 +681,9 @@ func execC15Ecdsa(c *vf.Ctx, cs c15Case, fail func(kind, class, what, obs, req s
 
 func c15Scalar(r *vf.Rand) []byte {
 	one := big.NewInt(1)
-	switch r.Intn(10) {
+	switch r.Intn(12) {
+	case 10, 11:
+		return k1SweepPick(r)
 	case 0:
 		vals := []*big.Int{big.NewInt(0), one, big.NewInt(2), new(big.Int).Sub(k1N, one), k1N, new(big.Int).Add(k1N, one), new(big.Int).Sub(two256, one)}
 		return vals[r.Intn(len(vals))].Bytes()
@@ -844,6 +846,15 @@ func runC15(c *vf.Ctx) {
 		for i, cs := range c15RangeCases() {
 			if i%16 == w {
 				execC15(c, d, cs)
+			}
+		}
+		// boundary scalar sweep (deterministic; all byte forms), spread over the workers
+		for i, cs := range c15ScalarSweepCases(SearchMode()) {
+			if i%16 == w {
+				execC15(c, d, cs)
+			}
+			if c.Failed() {
+				return
 			}
 		}
 		for i := 0; i < n/16; i++ {
